@@ -50,23 +50,14 @@ def ensure_configured(cfg):
 
 
 def build(cfg, ninja_targets):
-    """Incremental rebuild from /repo's working tree; serialised per build tree."""
-    os.makedirs(BUILD, exist_ok=True)
-    lock = open(os.path.join(BUILD, cfg + ".lock"), "w")
-    fcntl.flock(lock, fcntl.LOCK_EX)
-    try:
-        if not ensure_configured(cfg):
-            return False, "configure failed"
-        t0 = time.time()
-        r = subprocess.run(["ninja", "-C", os.path.join(BUILD, cfg)] + ninja_targets, env=env_for_runs(),
-                           stdout=subprocess.PIPE, stderr=subprocess.STDOUT, text=True)
-        if r.returncode != 0:
-            return False, r.stdout[-6000:]
-        log(f"[build] {cfg} {' '.join(ninja_targets)} ok in {time.time() - t0:.1f}s")
-        return True, ""
-    finally:
-        fcntl.flock(lock, fcntl.LOCK_UN)
-        lock.close()
+    """Incremental rebuild from /repo's working tree; serialised + combined per build tree (bin/vbuild.py)."""
+    import vbuild
+    t0 = time.time()
+    rc, out = vbuild.build(cfg, list(ninja_targets), quiet=True)
+    if rc != 0:
+        return False, out[-6000:]
+    log(f"[build] {cfg} {' '.join(ninja_targets)} ok in {time.time() - t0:.1f}s")
+    return True, ""
 
 
 # ------------------------------------------------------------------------------------------------
@@ -104,6 +95,8 @@ class Failure:
 
 def replay_cmd(stage, path):
     k = stage["kind"]
+    if k == "fuzz":
+        return [os.path.join(BUILD, "san", "vh", stage["binary"]), "--target", stage["target"], "--replay", path]
     if k in ("gen", "enum"):
         exe = os.path.join(BUILD, stage.get("cfg", "san"), "vh", stage["binary"])
         flag = "--replay-enum" if (k == "enum" or path.endswith(".enum")) else "--replay"
@@ -159,10 +152,87 @@ def worker_cmd(stage, tier, seed, w, nworkers, outdir):
 
 
 def stage_name(stage):
+    if stage["kind"] == "fuzz":
+        return "fuzz_" + stage["target"]
     return stage.get("target") or stage.get("name") or os.path.splitext(os.path.basename(stage.get("module", stage.get("script", "stage"))))[0]
 
 
+def run_fuzz_stage(prop, stage, tier, seed, workdir):
+    """libFuzzer campaign in the fz tree, then the resulting corpus is measured (classes / non-trivial shapes) with the san binary."""
+    name = stage_name(stage)
+    outdir = os.path.join(workdir, name)
+    shutil.rmtree(outdir, ignore_errors=True)
+    corpus = os.path.join(outdir, "corpus")
+    os.makedirs(corpus)
+    art = os.path.join(outdir, "artifacts") + "/"
+    os.makedirs(art)
+    seeds = os.path.join(VERIF, "corpus", prop, stage["target"])
+    exe = os.path.join(BUILD, "fz", "vh", stage["binary"])
+    secs = stage.get("seconds_" + tier, 120)
+    env = env_for_runs()
+    env["VH_TARGET"] = stage["target"]
+    cmd = [exe, f"-fork={NPROC}", f"-max_total_time={secs}", f"-seed={seed}", f"-artifact_prefix={art}", "-print_final_stats=1",
+           f"-max_len={stage.get('max_len', 4096)}", "-ignore_timeouts=1", "-ignore_ooms=1", "-ignore_crashes=0", "-timeout=60", corpus]
+    if os.path.isdir(seeds):
+        cmd.append(seeds)
+    t0 = time.time()
+    log_path = os.path.join(outdir, "libfuzzer.log")
+    with open(log_path, "w") as lf:
+        try:
+            subprocess.run(cmd, env=env, stdout=lf, stderr=subprocess.STDOUT, timeout=secs + 600, cwd=outdir)
+        except subprocess.TimeoutExpired:
+            pass
+    logtxt = open(log_path, errors="replace").read()
+    failures = []
+    for f in sorted(glob.glob(art + "crash-*") + glob.glob(art + "leak-*")):
+        failed, oracle, msg, _ = run_replay(stage, f)
+        if failed:
+            dst = os.path.join(outdir, "fail-" + os.path.basename(f) + ".bin")
+            shutil.copyfile(f, dst)
+            st_gen = dict(stage)
+            st_gen["kind"] = "gen"  # so that the byte shrinker is applied; replays go through the san binary
+            st_gen["cfg"] = "san"
+            failures.append(Failure(st_gen, oracle, msg, dst, "bin"))
+            log(f"[{prop}] fuzz stage {name}: artifact {os.path.basename(f)} oracle={oracle} {msg[:200]}")
+    # measure the corpus with the san binary
+    magg = {"cases": 0, "nontrivial": 0, "steps": 0, "classes": {}, "class_cases": {}, "samples": [], "distinct_nontrivial": 0}
+    mdir = os.path.join(outdir, "measure")
+    os.makedirs(mdir)
+    sanexe = os.path.join(BUILD, "san", "vh", stage["binary"])
+    procs = [subprocess.Popen([sanexe, "--target", stage["target"], "--corpus", corpus, "--worker", str(w), "--nworkers", str(NPROC), "--out", mdir],
+                              env=env_for_runs(), stdout=subprocess.DEVNULL, stderr=subprocess.DEVNULL) for w in range(NPROC)]
+    for p in procs:
+        p.wait()
+    shapes = set()
+    for f in sorted(glob.glob(os.path.join(mdir, "stats-*.json"))):
+        try:
+            sj = json.load(open(f))
+        except Exception:
+            continue
+        for k in ("cases", "nontrivial", "steps"):
+            magg[k] += sj.get(k, 0)
+        for k, v in sj.get("classes", {}).items():
+            magg["classes"][k] = magg["classes"].get(k, 0) + v
+        for k, v in sj.get("class_cases", {}).items():
+            magg["class_cases"][k] = magg["class_cases"].get(k, 0) + v
+        magg["samples"] += sj.get("samples", [])[:2]
+    for f in glob.glob(os.path.join(mdir, "shapes-*.bin")):
+        raw = open(f, "rb").read()
+        shapes.update(struct.unpack("<%dQ" % (len(raw) // 8), raw[:len(raw) // 8 * 8]))
+    execs = sum(int(x) for x in re.findall(r"stat::number_of_executed_units:\s*(\d+)", logtxt))
+    covs = [int(x) for x in re.findall(r"cov: (\d+)", logtxt)]
+    agg = {"name": name, "kind": "fuzz", "cases": max(execs, magg["cases"]), "nontrivial": magg["nontrivial"], "steps": magg["steps"],
+           "classes": magg["classes"], "class_cases": magg["class_cases"], "samples": magg["samples"][:4], "stopped_by": {"time": 1},
+           "wall_s": round(time.time() - t0, 2), "enum_total": 0, "distinct_nontrivial": len(shapes),
+           "rule": stage.get("rule", "libFuzzer coverage-guided campaign (g++ trace-pc via covshim) on the same target; executions counted by libFuzzer; "
+                                     "non-trivial/distinct measured by re-running the final corpus through the san binary"),
+           "libfuzzer": {"executions": execs, "corpus_files": magg["cases"], "max_cov": max(covs) if covs else 0, "seconds": secs}}
+    return agg, failures, shapes
+
+
 def run_stage(prop, stage, tier, seed, workdir):
+    if stage["kind"] == "fuzz":
+        return run_fuzz_stage(prop, stage, tier, seed, workdir)
     name = stage_name(stage)
     outdir = os.path.join(workdir, name)
     shutil.rmtree(outdir, ignore_errors=True)
@@ -376,6 +446,10 @@ def main():
     for st in spec["stages"]:
         if st["kind"] in ("gen", "enum"):
             cfgs.setdefault(st.get("cfg", "san"), set()).add(st["binary"])
+        if st["kind"] == "fuzz" and (len(sys.argv) > 2 and sys.argv[2] in st.get("tiers", ("thorough",)) or (len(sys.argv) > 2 and sys.argv[2] == "--replay")):
+            cfgs.setdefault("san", set()).add(st["binary"])
+            if sys.argv[2] != "--replay":
+                cfgs.setdefault("fz", set()).add(st["binary"])
         for cfg, tg in st.get("needs", []):
             cfgs.setdefault(cfg, set()).add(tg)
     for cfg, tgs in cfgs.items():
